@@ -78,6 +78,23 @@ def check(ctx):
     if nl == 0:
         for c in [c for c in cfgs if c['kind'] in ('CS', 'FPA')][:2]:
             chosen.append(dict(c, adv=0.0, hook='observer', xproc=True))
+    # every kind built without a hyperparameter dictionary, after another object of the same kind (also built without one) had
+    # its hyperparameters changed through the setters: what one object is told must not reach the next (always across processes)
+    import random as _rnd
+    seen_kinds = set()
+    for c in list(cfgs):
+        if c['kind'] in seen_kinds or c['kind'] == 'GP' or (ctx['tier'] == 'quick' and len(seen_kinds) >= 17):
+            continue
+        seen_kinds.add(c['kind'])
+        r_ = _rnd.Random(ctx['seed'] * 101 + len(seen_kinds))
+        post = {}
+        for _ in range(4):
+            post.update(runlevel.hyper_post_sample(r_, c['kind'], max(c['n_agents'], 4), post))
+        base = dict(c, hyper={}, n_agents=max(c['n_agents'], 4), n_iter=2, objective='positive' if c['kind'] == 'WCA' else 'sphere', xproc=True)
+        chosen.append(dict(base, setter_workload=dict(base, seed=c['seed'] + 31, hyper_post=post)))
+    # a function list that repeats a name (to weight it), compared across interpreter processes with different hash seeds
+    for g in [c for c in cfgs if c['kind'] == 'GP'][:1]:
+        chosen.append(dict(g, functions=['SUM', 'SUM', 'MUL', 'SUB', 'MUL', 'COS'], n_agents=max(g['n_agents'], 10), max_depth=g['min_depth'] + 2, xproc=True))
     for n, c in enumerate(chosen):
         rp = dict(how='twice', cfg=c)
         # the preceding workload: the same kind of task (same shapes, so freed memory is re-used) with another
@@ -100,6 +117,10 @@ def check(ctx):
             for db in (3e-10, -4e-12):
                 near.append(dict(same_shape, seed=c['seed'] + 29, hyper=dict(c.get('hyper') or {}, beta=b0 + db)))
         wl = near + [other_hp, same_shape, other_space] + workloads[:2]
+        if c.get('setter_workload'):
+            wl = [c['setter_workload']] + wl
+            c = {k_: v_ for k_, v_ in c.items() if k_ != 'setter_workload'}
+            rp = dict(how='twice', cfg=c)
         rp['workload'] = wl
         if n < n_cross or c['objective'] == 'barrier' or c.get('xproc'):
             a = child(c, [], 1)
